@@ -12,6 +12,7 @@ use crate::prng::{hex, Rng};
 pub enum Op {
     Update(usize, usize), // instance, piece length
     Clone(usize),
+    CloneFrom(usize, usize), // destination (a live instance), source
     Reset(usize),
     FinalizeReset(usize),
     Finalize(usize), // consumes the instance
@@ -22,6 +23,7 @@ fn ops_to_string(ops: &[Op]) -> String {
         .map(|o| match o {
             Op::Update(i, n) => format!("u{}.{}", i, n),
             Op::Clone(i) => format!("c{}", i),
+            Op::CloneFrom(d, s) => format!("x{}.{}", d, s),
             Op::Reset(i) => format!("r{}", i),
             Op::FinalizeReset(i) => format!("f{}", i),
             Op::Finalize(i) => format!("F{}", i),
@@ -40,6 +42,10 @@ fn ops_from_string(s: &str) -> Vec<Op> {
                     Op::Update(a.parse().unwrap(), b.parse().unwrap())
                 }
                 "c" => Op::Clone(r.parse().unwrap()),
+                "x" => {
+                    let (a, b) = r.split_once('.').unwrap();
+                    Op::CloneFrom(a.parse().unwrap(), b.parse().unwrap())
+                }
                 "r" => Op::Reset(r.parse().unwrap()),
                 "f" => Op::FinalizeReset(r.parse().unwrap()),
                 "F" => Op::Finalize(r.parse().unwrap()),
@@ -162,7 +168,7 @@ pub fn exec(cx: &mut Ctx, h: &Hist) {
     }
     for (opi, op) in h.ops.iter().enumerate() {
         let idx = match op {
-            Op::Update(i, _) | Op::Clone(i) | Op::Reset(i) | Op::FinalizeReset(i) | Op::Finalize(i) => *i,
+            Op::Update(i, _) | Op::Clone(i) | Op::CloneFrom(i, _) | Op::Reset(i) | Op::FinalizeReset(i) | Op::Finalize(i) => *i,
         };
         if idx >= inst.len() || inst[idx].is_none() {
             continue;
@@ -178,7 +184,21 @@ pub fn exec(cx: &mut Ctx, h: &Hist) {
         };
         match op {
             Op::Update(_, n) => {
-                let piece = drng.bytes(*n);
+                // data source of the history (from its data seed): random (5 in 8), all zero,
+                // a repeating 64-byte record whose last byte counts, or all 0x80.. bytes
+                let mut piece = drng.bytes(*n);
+                match h.dseed % 8 {
+                    5 => piece.iter_mut().for_each(|b| *b = 0),
+                    6 => {
+                        let at = inst[idx].as_ref().unwrap().1.len();
+                        for (i, b) in piece.iter_mut().enumerate() {
+                            let p = at + i;
+                            *b = if p % 64 == 63 { (p / 64) as u8 } else { (h.dseed >> (8 * (p % 8))) as u8 ^ (p % 64) as u8 };
+                        }
+                    }
+                    7 => piece.iter_mut().for_each(|b| *b |= 0x80),
+                    _ => {}
+                }
                 cx.log.class(&format!("{}/update/{}/{}", id.fam_name(), fill_class(fill, bs), piece_class(*n, fill % bs, bs)));
                 if (*n + opi) % 4 == 3 {
                     // by-value Update::chain
@@ -226,6 +246,25 @@ pub fn exec(cx: &mut Ctx, h: &Hist) {
                         break;
                     }
                 }
+            }
+            Op::CloneFrom(_, src) => {
+                // Clone::clone_from onto a live instance: whatever the destination held is gone
+                if *src == idx || *src >= inst.len() || inst[*src].is_none() {
+                    continue;
+                }
+                let sfill = inst[*src].as_ref().unwrap().1.len() % bs;
+                cx.log.class(&format!("{}/clone_from/dst-{}/src-{}", id.fam_name(), fill_class(fill, bs), fill_class(sfill, bs)));
+                cx.log.event("clone_from_calls", 1);
+                let (mut dh, _, _) = inst[idx].take().unwrap();
+                let (r, sh, late) = {
+                    let s = inst[*src].as_ref().unwrap();
+                    (guarded(|| dh.clone_from_dyn(&*s.0)), s.1.clone(), s.2.clone())
+                };
+                if let Err(p) = r {
+                    cx.log.panic_violation(&format!("{}|op=clone_from", sigp), &p);
+                    break;
+                }
+                inst[idx] = Some((dh, sh, late));
             }
             Op::Reset(_) => {
                 cx.log.class(&format!("{}/reset/{}", id.fam_name(), fill_class(fill, bs)));
@@ -335,7 +374,12 @@ fn gen_ops(r: &mut Rng, bs: usize, maxops: usize) -> Vec<Op> {
                 ops.push(Op::Update(i, len));
             }
             60..=71 => {
-                if live.len() < 4 {
+                if live.len() >= 2 && r.below(3) == 0 {
+                    let others: Vec<usize> = live.iter().copied().filter(|&j| j != i).collect();
+                    let j = *r.pick(&others);
+                    lens[i] = lens[j];
+                    ops.push(Op::CloneFrom(i, j));
+                } else if live.len() < 4 {
                     lens.push(Some(cur));
                     ops.push(Op::Clone(i));
                 }
@@ -372,7 +416,7 @@ pub fn run(cx: &mut Ctx) {
         let late = if !cfg!(miri) && rng.below(6) == 0 { super::counters::late_counter(&mut rng, &id) } else { 0 };
         let h = Hist { id, fb, dseed: rng.u64(), ops, late };
         cx.log.announce(&h.desc());
-        let special = h.ops.iter().any(|o| matches!(o, Op::Clone(_) | Op::Reset(_) | Op::FinalizeReset(_) | Op::Update(_, 0)));
+        let special = h.ops.iter().any(|o| matches!(o, Op::Clone(_) | Op::CloneFrom(..) | Op::Reset(_) | Op::FinalizeReset(_) | Op::Update(_, 0)));
         if h.ops.len() >= 3 && special {
             cx.log.nontrivial();
         }
